@@ -11,6 +11,7 @@ import (
 	"verif/internal/eq"
 	"verif/internal/fw"
 	"verif/internal/gen"
+	"verif/internal/mon"
 	"verif/internal/xmlw"
 )
 
@@ -131,8 +132,18 @@ func c03Run(res *fw.Result, d *xmlw.Doc, text string, chunk int, detail map[stri
 	res.Event(1)
 
 	// (2) streaming scan against the model's document order
-	objs, serr, span := xmlScan(data, chunk)
+	// ... driven in one of six legal consumer styles chosen by the text (deterministic)
+	style := (len(data)/7 + int(data[len(data)/3])) % len(xmlConsumerStyles)
+	rd := mon.NewReader(data)
+	rd.Chunk = chunk
+	sc := xmlScanStyled(rd, style, len(data))
+	objs, skipped, serr, span := sc.Objs, sc.Skipped, sc.Err, sc.Pan
 	res.Event(int64(len(objs)))
+	res.Add("scanner_consumer_"+xmlConsumerStyles[style], 1)
+	detail = xmlWith(detail, "consumer", xmlConsumerStyles[style])
+	for _, p := range sc.Proto {
+		res.Violate(key+"/scanner/protocol", p, det(nil))
+	}
 	scanOK := false
 	switch {
 	case span != "":
@@ -145,6 +156,9 @@ func c03Run(res *fw.Result, d *xmlw.Doc, text string, chunk int, detail map[stri
 	default:
 		scanOK = true
 		for i, o := range objs {
+			if skipped[i] {
+				continue
+			}
 			want := flat[i].Obj
 			if xmlObjKind(o) != xmlObjKind(want) {
 				scanOK = false
@@ -172,6 +186,9 @@ func c03Run(res *fw.Result, d *xmlw.Doc, text string, chunk int, detail map[stri
 			ck := fmt.Sprintf("%s/%d/%s", flat[i].Label, flat[i].Action, kind)
 			idx := counter[ck]
 			counter[ck]++
+			if skipped[i] {
+				continue
+			}
 			var cont *osm.OSM
 			var fromWhole osm.Object
 			switch v := whole.(type) {
@@ -629,6 +646,7 @@ func init() {
 			"namespaces: the OSM format defines none, and both decoders are expected to identify elements by their local name whatever namespace a declaration puts them in (an xmlns declaration is one more unknown attribute); OSM attributes are never put into a namespace and foreign-namespace attributes never have an OSM local name (observed: Go's encoding/xml matches attributes by local name alone, so xml:id or o:version WOULD be read as id / version — ambiguous, not generated)",
 			"numbers and dates are written in the canonical syntax of the API (decimal without exponent, RFC 3339 'Z' times with optional fraction, 'YYYY-MM-DD hh:mm:ss UTC' note dates); trailing zeros in decimals are the only numeric variation",
 			"diff create actions hold exactly one element, old/new exactly one element each (the augmented-diff shape the API documents); the scanner is expected to deliver old before new, then the next action, i.e. plain document order",
+			"the scanner is driven in six legal consumer styles chosen by the text (canonical; Err after every Scan; Err once after the k-th Scan; Object twice; Object not fetched for every third object, those positions are not compared; Scan called again after it returned false): read-only accessors and legal call orders must not change what is delivered; the value Err returns in mid-scan is not judged",
 			"encoding/xml itself (tokenizer, entity and character-reference decoding) is part of the execution under observation, not of the oracle",
 			"a literal \"]]>\" inside an attribute value is well-formed XML but rejected by Go's encoding/xml tokenizer; the writer never emits it ('>' after ']' is always escaped in attribute values); three non-asserting probe cases record the rejection (probe_* counters)",
 		},
